@@ -222,7 +222,9 @@ func sync_runtime_notifyListAdd(l *notifyList) uint32 {
 func sync_runtime_notifyListWait(l *notifyList, t uint32) {
 	st := getNotifyState(l)
 	st.mu.Lock()
-	for latomic.LoadUint32(&l.notify) == t {
+	// Ticket t has been notified once l.notify has moved past it (the counters
+	// may wrap, as in the Go runtime's notifyList).
+	for int32(latomic.LoadUint32(&l.notify)-t) <= 0 {
 		st.cond.Wait(&st.mu)
 	}
 	st.mu.Unlock()
@@ -243,7 +245,9 @@ func sync_runtime_notifyListNotifyOne(l *notifyList) {
 	st.mu.Lock()
 	if latomic.LoadUint32(&l.notify) != latomic.LoadUint32(&l.wait) {
 		latomic.AddUint32(&l.notify, 1)
-		st.cond.Signal()
+		// All waiters share one condition variable; the one whose ticket
+		// was just released must be among those woken.
+		st.cond.Broadcast()
 	}
 	st.mu.Unlock()
 }
